@@ -229,7 +229,17 @@ func main() {
 		exit(doReplay(b, id, *replay))
 	}
 	if *selftest {
-		exit(doSelfTest(b, id, *tier))
+		rc, _ := doSelfTest(b, id, *tier)
+		exit(rc)
+	}
+	selfNote := "not run in this tier (run ./check " + id + " --selftest, or the thorough tier)"
+	if *tier == "thorough" && *patch == "" {
+		rc, note := doSelfTest(b, id, "quick")
+		if rc != 0 {
+			fmt.Fprintf(os.Stderr, "ENGINE: determinism self-test failed: %s\n", note)
+			exit(2)
+		}
+		selfNote = note
 	}
 
 	// known findings
@@ -407,6 +417,7 @@ func main() {
 			"seam_patches_applied":     b.stats.Patched,
 			"known_findings_hit":       total.Known,
 			"exhaustive":               false,
+			"determinism_selftest":     selfNote,
 			"state_measure":            "distinct event-log hashes (every scheduling decision, spawn, stall and harness event) among non-trivial runs",
 		},
 	}
@@ -536,7 +547,7 @@ func doReplay(b *built, id, path string) int {
 
 // doSelfTest: same seeds in many processes, at GOMAXPROCS 1/4/16, first in the
 // process and after unrelated predecessor runs; all event-log hashes must agree.
-func doSelfTest(b *built, id, tier string) int {
+func doSelfTest(b *built, id, tier string) (int, string) {
 	nSeeds := 40
 	var seeds []string
 	for i := 0; i < nSeeds; i++ {
@@ -604,9 +615,10 @@ func doSelfTest(b *built, id, tier string) int {
 			distinct[f[1]] = true
 		}
 	}
-	fmt.Printf("selftest %s: %d processes x %d seeds, %d distinct hashes, %d divergent/erroneous processes\n", id, len(cfgs), nSeeds, len(distinct), bad)
+	note := fmt.Sprintf("%d processes (GOMAXPROCS 1/4/16, fresh and after 25 predecessor runs) x %d seeds, %d distinct event-log hashes, %d divergent/erroneous processes", len(cfgs), nSeeds, len(distinct), bad)
+	fmt.Printf("selftest %s: %s\n", id, note)
 	if bad > 0 {
-		return 2
+		return 2, note
 	}
-	return 0
+	return 0, note
 }
